@@ -14,7 +14,14 @@ The C10 spec predicates (`Rbacx/Spec/Reload.lean` + convergence on the settle su
 by the driver on the implementation's own trace.
 
 All times are multiples of 1/64 s (and the literal 0.2), so every value is exact both as a binary
-float and as an integer number of microseconds (the model's time unit)."""
+float and as an integer number of microseconds (the model's time unit).
+
+Tie by regeneration: `check_and_reload_async`, `_register_error` and the state-creating statements of `__init__` are translated from
+the CURRENT source text on every run (harness/pytolean_state.py, plugin extractors/src_translation_reloader.py); the per-run obligation
+`Rbacx/Run/C10_translated.lean` proves the translation equal to the model's `check` / `registerError` / `init` (and histories of
+translated checks equal to `run`), and `translated_vs_python` (harness/reloader_tr.py, evaluator `Rbacx/Run/SrcEvalReloader.lean`) runs the
+translation against the real methods with scripted collaborators.  When the obligation does not check, the search is widened; a history on
+which the real reloader violates a clause is reported as `VIOLATION … replay=…`, else the undischarged obligation itself is."""
 from __future__ import annotations
 
 import asyncio
@@ -1431,6 +1438,16 @@ def replay(run: lib.Run, audit: dict, path: str) -> int:
         path = os.path.join(lib.VERIF, path)
     rp = json.load(open(path))
     case = rp.get("case") or rp
+    if "history" not in case:
+        # an undischarged obligation / a translated-vs-python disagreement: nothing to re-execute on the reloader histories; show the record
+        tr = audit["facts"].get("translated_reloader")
+        ok_tr, detail_tr = lib.run_obligation("C10_translated")
+        print("recorded:", json.dumps({k: v for k, v in rp.items() if k != "translation"}, default=str)[:3000])
+        print("obligation C10_translated now:", "discharged" if ok_tr else detail_tr[:1500])
+        if isinstance(tr, dict) and "extraction_failed" not in tr:
+            sink: list = []
+            print("translated vs python now:", translated_vs_python(run, tr, sink)[1], json.dumps(sink[:1], default=str)[:1500])
+        return 0 if ok_tr else 1
     with tempfile.TemporaryDirectory(prefix="c10_") as tmpdir, _Patched():
         v = run_one(case, tmpdir)
     print(f"kind={case['kind']} initial_load={case['initial_load']} cfg={CFGS[case['cfg']]}")
